@@ -21,6 +21,22 @@ Proof. intros Hi Hk H. unfold zget, zset. apply nth_upd_other. lia. Qed.
 Lemma dget_dset_other d u w x : -1 <= u -> -1 <= w -> w <> u -> dget (dset d u x) w = dget d w.
 Proof. intros Hu Hw H. unfold dget, dset. apply zget_zset_other; lia. Qed.
 
+Lemma dset_length d u x : length (dset d u x) = length d.
+Proof. apply upd_length. Qed.
+
+Lemma nth_upd_cases {A} (l : list A) i k x d : nth k (upd l i x) d = nth k l d \/ nth k (upd l i x) d = x.
+Proof.
+  destruct (Nat.eq_dec k i) as [->|H]; [|left; apply nth_upd_other; exact H].
+  destruct (Nat.lt_ge_cases i (length l)) as [Hi|Hi]; [right; apply nth_upd_same; exact Hi|left].
+  rewrite !nth_overflow; [reflexivity|exact Hi|rewrite upd_length; exact Hi].
+Qed.
+
+Lemma dget_dset_cases d u x w : dget (dset d u x) w = dget d w \/ dget (dset d u x) w = x.
+Proof. unfold dget, dset, zget, zset. apply nth_upd_cases. Qed.
+
+Lemma dget_dset_same d u x : -1 <= u -> u + 1 < Z.of_nat (length d) -> dget (dset d u x) u = x.
+Proof. intros H1 H2. unfold dget, dset. apply zget_zset_same. lia. Qed.
+
 Lemma nth_repeat_lt {A} (a d : A) n k : (k < n)%nat -> nth k (repeat a n) d = a.
 Proof. revert k. induction n as [|n IH]; intros [|k] H; simpl; try lia; [reflexivity|apply IH; lia]. Qed.
 
@@ -67,6 +83,17 @@ Section HK.
     dget (dist s) w <= dget (dist s) u ->
     dget (dist s') w = dget (dist s) w /\ zget (mu s') w = zget (mu s) w.
 
+  (* dfs changes dist only by overwriting entries with inf *)
+  Definition dpres (d d' : list Z) : Prop :=
+    length d' = length d /\ forall w, dget d' w = dget d w \/ dget d' w = inf g.
+  Lemma dpres_refl d : dpres d d.
+  Proof. split; [reflexivity|]. intros w. left. reflexivity. Qed.
+  Lemma dpres_trans d1 d2 d3 : dpres d1 d2 -> dpres d2 d3 -> dpres d1 d3.
+  Proof.
+    intros [L1 H1] [L2 H2]. split; [congruence|]. intros w.
+    destruct (H2 w) as [E|E]; [|right; exact E]. rewrite E. apply H1.
+  Qed.
+
   (* state after a successful dfs from u whose previous partner was v0 (possibly -1) *)
   Definition post (v0 : Z) (s' : hk) (u : Z) : Prop :=
     lens s' /\ matchA s' /\
@@ -75,7 +102,8 @@ Section HK.
     zget (mu s') u <> -1 /\ zget (mu s') u <> v0.
 
   Definition dfs_spec (s : hk) (u : Z) (r : hk * bool) : Prop :=
-    frame s (fst r) u /\
+    frame s (fst r) u /\ dpres (dist s) (dist (fst r)) /\
+    (forall w, 0 <= w < NU -> zget (mu s) w <> -1 -> zget (mu (fst r)) w <> -1) /\
     (snd r = false -> mu (fst r) = mu s /\ mv (fst r) = mv s) /\
     (snd r = true -> u = -1 -> fst r = s) /\
     (snd r = true -> u <> -1 -> post (zget (mu s) u) (fst r) u).
@@ -116,12 +144,15 @@ Section HK.
     forall vs, incl vs (adj_u g u) ->
     forall si r, Inv si -> mu si = mu s -> mv si = mv s ->
       (forall w, 0 <= w -> dget (dist s) w <= dget (dist s) u -> dget (dist si) w = dget (dist s) w) ->
+      dpres (dist s) (dist si) ->
       dfs_loop g (dfs g f) u vs si = Some r -> dfs_spec s u r.
   Proof.
-    induction vs as [|v vs IH]; intros Hincl si r Hinv Emu Emv Hfr Hr.
+    induction vs as [|v vs IH]; intros Hincl si r Hinv Emu Emv Hfr Hdp Hr.
     - simpl in Hr. injection Hr as <-. unfold dfs_spec, frame. cbn [fst snd mu mv dist].
-      split; [|split; [|split]]; try discriminate.
+      split; [|split; [|split; [|split; [|split]]]]; try discriminate.
       + intros w Hw Hwu Hle. rewrite dget_dset_other by lia. rewrite Emu. split; [apply Hfr; assumption|reflexivity].
+      + apply (dpres_trans _ (dist si)); [exact Hdp|]. split; [apply dset_length|]. intros w. apply dget_dset_cases.
+      + intros w _ Hw. rewrite Emu. exact Hw.
       + intros _. split; assumption.
     - assert (Hv : 0 <= v < NV). { apply (Hadj u). apply Hincl. left. reflexivity. }
       assert (Hvin : In v (adj_u g u)). { apply Hincl. left. reflexivity. }
@@ -138,7 +169,8 @@ Section HK.
       destruct (dfs g f si u') as [[s' b]|] eqn:Er; [|discriminate].
       assert (Hspec : dfs_spec si u' (s', b)).
       { apply IHf; [exact Hinv| |exact Er]. destruct Hu' as [H|[H _]]; [left|right]; exact H. }
-      destruct Hspec as [Hframe [Hfalse [Htrue1 Htrue2]]]. cbn [fst snd] in *.
+      destruct Hspec as [Hframe [Hdp' [Hkeep [Hfalse [Htrue1 Htrue2]]]]]. cbn [fst snd] in *.
+      assert (Hdp2 : dpres (dist s) (dist s')) by (apply (dpres_trans _ (dist si)); assumption).
       assert (Hdu : dget (dist si) u = dget (dist s) u). { apply Hfr; lia. }
       destruct b.
       + (* the recursive call succeeded: re-match u with v *)
@@ -168,8 +200,12 @@ Section HK.
               * rewrite F1, F2, Emu. split; [exact Hdw|reflexivity]. }
         destruct Hs' as [Q1 [Q2 [Q3 [Q4 [Q5 Q6]]]]].
         unfold dfs_spec, frame. cbn [fst snd].
-        split; [|split; [|split]]; try discriminate.
+        split; [|split; [|split; [|split; [|split]]]]; try discriminate.
         * intros w Hw Hwu Hle. cbn [mu mv dist]. rewrite zget_zset_other by lia. apply Q6; assumption.
+        * cbn [dist]. exact Hdp2.
+        * intros w Hw Hm. cbn [mu]. destruct (Z.eq_dec w u) as [->|Hwu].
+          -- rewrite zget_zset_same by (destruct Q1 as [Q1 _]; rewrite Q1; exact Hu). lia.
+          -- rewrite zget_zset_other by lia. apply Hkeep; [exact Hw|]. rewrite Emu. exact Hm.
         * intros _ E. lia.
         * intros _ _. apply augment_post; assumption.
       + (* the recursive call failed: only dist changed; continue with the remaining neighbours *)
@@ -184,13 +220,15 @@ Section HK.
   Proof.
     induction f as [|f IHf]; intros s u r Hinv Hu Hr; [discriminate|].
     rewrite dfs_S in Hr. destruct (Z.eqb_spec u (-1)) as [E|E].
-    - injection Hr as <-. unfold dfs_spec, frame. cbn [fst snd]. split; [|split; [|split]].
+    - injection Hr as <-. unfold dfs_spec, frame. cbn [fst snd]. split; [|split; [|split; [|split; [|split]]]].
       + intros w _ _ _. split; reflexivity.
+      + apply dpres_refl.
+      + intros w _ Hw. exact Hw.
       + discriminate.
       + reflexivity.
       + intros _ H. contradiction.
     - destruct Hu as [Hu|Hu]; [contradiction|].
-      apply (dfs_loop_ok f IHf s u Hu (adj_u g u) (incl_refl _) s r); auto.
+      apply (dfs_loop_ok f IHf s u Hu (adj_u g u) (incl_refl _) s r); auto. apply dpres_refl.
   Qed.
 
   (* dfs started (by [phase]) at an unmatched vertex restores the full invariant *)
@@ -198,7 +236,7 @@ Section HK.
     dfs g f s u = Some (s', b) -> Inv s'.
   Proof.
     intros Hinv Hu Hfree Hr.
-    destruct (dfs_ok f s u (s', b) Hinv (or_intror Hu) Hr) as [_ [Hfalse [_ Htrue]]]. cbn [fst snd] in *.
+    destruct (dfs_ok f s u (s', b) Hinv (or_intror Hu) Hr) as [_ [_ [_ [Hfalse [_ Htrue]]]]]. cbn [fst snd] in *.
     destruct b.
     - destruct (Htrue eq_refl) as [P1 [P2 [P3 _]]]; [lia|]. split; [exact P1|split; [exact P2|]].
       intros v Hv. apply P3; [exact Hv|]. rewrite Hfree. lia.
